@@ -124,21 +124,7 @@ theorem withPrefix_injective (pfx : Option Str) (sep : Str) {r₁ r₂ : Str}
   | none => simpa [withPrefix] using h
   | some p =>
     simp only [withPrefix] at h
-    split at h <;> split at h
-    · simp_all
-    · rename_i h1 h2
-      have := congrArg List.length h
-      simp only [List.length_append] at this
-      have hs : sep = [] := List.eq_nil_of_length_eq_zero (by omega)
-      have hr : r₂ = [] := List.eq_nil_of_length_eq_zero (by omega)
-      exact absurd (hr.trans hs.symm) h2
-    · rename_i h1 h2
-      have := congrArg List.length h
-      simp only [List.length_append] at this
-      have hs : sep = [] := List.eq_nil_of_length_eq_zero (by omega)
-      have hr : r₁ = [] := List.eq_nil_of_length_eq_zero (by omega)
-      exact absurd (hr.trans hs.symm) h1
-    · simpa using h
+    simpa using h
 
 /-- a CMake-named path is its stem followed by its last six characters, which spell `.cmake` in some letter case -/
 theorem dropCMakeExt_append_ext {s : Str} (h : isCMakeName s = true) :
